@@ -23,7 +23,29 @@ PKGS = ["p", "q", "r"]
 MODS = ["x", "y"]
 NAMES = ["f", "g", "h", "C"]
 ACCESSORS_NEVER_RAISE = ["resolved", "kind", "has_docstring", "has_docstrings", "is_alias", "as_json"]
-ACCESSORS_ALIAS_ERRORS = ["target", "final_target", "members", "docstring", "lineno", "is_public", "canonical_path", "labels", "filepath", "is_module", "aliases", "inherited_members", "parameters_or_bases", "as_json_full"]
+ACCESSORS_ALIAS_ERRORS = [
+    "target", "final_target", "members", "docstring", "lineno", "endlineno", "is_public", "canonical_path", "labels", "filepath",
+    "is_module", "is_class", "is_function", "is_attribute", "aliases", "inherited_members", "parameters_or_bases", "as_json_full",
+    "all_members", "attributes", "classes", "functions", "modules", "is_exported", "is_imported", "is_wildcard_exposed",
+    "is_private", "is_special", "is_class_private", "is_deprecated", "is_init_module", "is_package", "is_subpackage",
+    "is_namespace_package", "is_namespace_subpackage", "lines", "source", "module", "package", "exports", "imports", "extra",
+    "relative_filepath", "relative_package_filepath", "mro", "resolved_bases", "path", "wildcard", "parent", "modules_collection",
+    "resolve_name", "getitem", "len", "repr",
+]
+# accessors that document further exception types of their own
+ACCESSOR_EXTRA_ERRORS = {
+    "relative_filepath": (ValueError,),
+    "relative_package_filepath": (ValueError,),
+    "filepath": (ValueError,),
+    "module": (ValueError,),
+    "package": (ValueError,),
+    "lines": (ValueError,),
+    "source": (ValueError,),
+    "mro": (ValueError, AttributeError),
+    "resolved_bases": (AttributeError,),
+    "resolve_name": (),
+    "getitem": (KeyError,),
+}
 CALL_BUDGET = 3_000_000
 OP_CPU_SECONDS = 4
 
@@ -84,7 +106,9 @@ def _gen_stmt(rng, layout, here, is_init, cfg, idx, in_class=False):
         return {"s": "attr", "name": rng.choice(NAMES)}
     if k == "class":
         body = [_gen_stmt(rng, layout, here, is_init, cfg, idx * 10 + j, in_class=True) for j in range(rng.choice([0, 1, 2]))]
-        return {"s": "class", "name": "C", "body": body}
+        # bases are names of the module scope: local classes, imported (possibly cyclic or dangling) aliases, or itself
+        bases = rng.sample(NAMES, rng.choice([0, 0, 1, 1, 2])) if cfg["bases"] else []
+        return {"s": "class", "name": rng.choice(["C", "C", "h"]), "body": body, "bases": bases}
     target = _gen_target_module(rng, layout, here, cfg)
     spec = target
     if rng.random() < cfg["p_relative"]:
@@ -123,7 +147,8 @@ def _render_stmt(st, ind=""):
         return f"{ind}{st['name']} = 1\n"
     if s == "class":
         body = "".join(_render_stmt(b, ind + "    ") for b in st["body"]) or f"{ind}    pass\n"
-        return f"{ind}class {st['name']}:\n{body}"
+        bases = f"({', '.join(st['bases'])})" if st.get("bases") else ""
+        return f"{ind}class {st['name']}{bases}:\n{body}"
     if s == "from":
         return f"{ind}from {st['mod']} import {st['name']}" + (f" as {st['as']}" if st["as"] else "") + "\n"
     if s == "import":
@@ -160,6 +185,7 @@ def generate(rng, opts):
         "faults": rng.random() < 0.35,
         "wildcards": rng.random() < 0.75,
         "links": rng.random() < 0.3,
+        "bases": rng.random() < 0.5,
     }
     n_pkgs = rng.choice([1, 1, 2, 2, 3])
     layout = {}
@@ -334,6 +360,19 @@ def _access(g, a, acc):
     if acc == "parameters_or_bases":
         ft = a.final_target
         return getattr(ft, "parameters", None) or getattr(ft, "bases", None)
+    if acc == "mro":
+        return a.mro()
+    if acc == "resolve_name":
+        try:
+            return a.resolve("f")
+        except g.NameResolutionError:
+            return None
+    if acc == "getitem":
+        return a["f"]
+    if acc == "len":
+        return len(a)
+    if acc == "repr":
+        return repr(a)
     if acc == "as_json":
         return a.as_json()
     if acc == "as_json_full":
@@ -491,8 +530,11 @@ def _step(ctx, g, w, coll, loaders, tracker, op, budget_mode, faulty_pkgs, all_p
                     # failed dereference must leave the alias unresolved - unless it is the *final* target that fails
                     pass
             except Exception as e:  # noqa: BLE001
-                ctx.fail("I1-accessor-raised", f"{apath}.{acc} raised {type(e).__name__}: {w.norm(str(e))[:160]}", exc=e, tags=_alias_tags(a, tracker))
-                return False
+                if isinstance(e, ACCESSOR_EXTRA_ERRORS.get(acc, ())) or (isinstance(e, g.BuiltinModuleError) and acc in ACCESSOR_EXTRA_ERRORS):
+                    outcome = type(e).__name__  # documented for this accessor, unrelated to alias resolution
+                else:
+                    ctx.fail("I1-accessor-raised", f"{apath}.{acc} raised {type(e).__name__}: {w.norm(str(e))[:160]}", exc=e, tags=_alias_tags(a, tracker))
+                    return False
             ctx.log("deref", (apath, acc, was, outcome, a._target is not None))
             trace.append(f"deref-{outcome}")
             if outcome != "ok":
